@@ -72,7 +72,8 @@ Section Statements.
   Proof. exact (c05_home py_lower py_upper basic_decode backend handler home_exists rights_w create_fails). Qed.
 
   (* Rejected credentials (the back-end returns "") and unsafe user names: no handler runs and nothing is
-     stored; the answer is an early exit (400/405/301/404/413 decided without or despite the credentials),
+     stored; the answer is an early exit (400/405/301/404/413 decided without or despite the credentials; 400 also for a
+     negative CONTENT_LENGTH of the internal server),
      a failed request (500: CONTENT_LENGTH of the internal server is not a number), or 401 with
      WWW-Authenticate (403 without challenge when the identity came from REMOTE_USER / X-Remote-User,
      where a Basic challenge would be meaningless).  When the request reaches the credentials and the
